@@ -394,8 +394,8 @@ template <class G> void c10(Reporter &R, const std::string &cls, const GraphSpec
     auto b = build<G>(s, variant, r, 37);
     ++C.graphs;
     unsigned n = s.n;
-    // up to 7 vertices: ALL 2^n subsets; larger graphs: 48 seeded subsets of varied density (plus the empty and the full set)
-    uint64_t rounds = n <= 7 ? (1ULL << n) : 50;
+    // up to 7 vertices: ALL 2^n subsets; larger graphs: 30 seeded subsets of varied density (plus the empty and the full set)
+    uint64_t rounds = n <= 7 ? (1ULL << n) : 32;
     for (uint64_t mask = 0; mask < rounds; ++mask) {
         std::unordered_set<VertexIndex> S;
         // insertion order into the set varies the iteration order of the unordered_set
